@@ -15,7 +15,7 @@ Requests (vec = `len h1 … hlen`, ints = `len i1 … ilen`, mat = `r c vec`):
   mbwd mat vec | mdet mat | mlu_det mat ints | mis_upper mat | mis_lower mat | mdiag mat | mis_sym mat |
   mis_pd mat
 Composite (blocks `P` or vec per entry point): entries vec vec | inverses vec | routes vec vec |
-  both_lu vec | both_chol vec | both_tri fwd|bwd|chol_solve vec vec | both_lu_solve vec ints vec
+  both_lu vec | lu_pair vec vec | both_chol vec | both_tri fwd|bwd|chol_solve vec vec | both_lu_solve vec ints vec
 Replies: vec, `vec ints` (lu), mat, `mat ints` (mlu), a float, `0|1`, `1|-1`, or `! panic`.
 -/
 open Cv Cv.LA
@@ -61,6 +61,12 @@ def joinB (bs : List String) : String := ok (" ".intercalate bs)
 def sq (d : List Float) : Option (Mat Float) := do let n ← isSquare d.length; M.new d n n
 def colOf (b : List Float) (nsys c : Nat) : List Float := (List.range (b.length / nsys)).map fun i => rd b (i * nsys + c)
 
+/-- slice `lu` and `Matrix::lu` of the same square array: factor, pivots, factor, pivots -/
+def luBlocks (a : List Float) : List String :=
+  let r1 := lu a
+  let r2 := do let m ← sq a; M.lu m
+  [blk (r1.map (·.1)), blkI (r1.map (·.2)), blkM (r2.map (·.1)), blkI (r2.map (·.2))]
+
 def composite (args : List String) : Option String :=
   match args with
   | "entries" :: rest => some <| withArgs (do let a ← pVec; let b ← pVec; pure (a, b)) rest fun (a, b) =>
@@ -80,10 +86,9 @@ def composite (args : List String) : Option String :=
                blkM (do let m ← sq a; M.solveM m (M.eye n))]
   | "routes" :: rest => some <| withArgs (do let a ← pVec; let b ← pVec; pure (a, b)) rest fun (a, b) =>
       joinB [blk (solve a b), blk (do let (f, p) ← lu a; luSolve f p b), blk (do let l ← cholesky a; choleskySolve l b)]
-  | "both_lu" :: rest => some <| withArgs pVec rest fun a =>
-      let r1 := lu a
-      let r2 := do let m ← sq a; M.lu m
-      joinB [blk (r1.map (·.1)), blkI (r1.map (·.2)), blkM (r2.map (·.1)), blkI (r2.map (·.2))]
+  | "both_lu" :: rest => some <| withArgs pVec rest fun a => joinB (luBlocks a)
+  | "lu_pair" :: rest => some <| withArgs (do let a ← pVec; let b ← pVec; pure (a, b)) rest fun (a, b) =>
+      joinB (luBlocks a ++ luBlocks b)
   | "both_chol" :: rest => some <| withArgs pVec rest fun a =>
       joinB [blk (cholesky a), blkM (do let m ← sq a; M.cholesky m)]
   | "both_tri" :: kind :: rest => some <| withArgs (do let a ← pVec; let b ← pVec; pure (a, b)) rest fun (a, b) =>
